@@ -97,7 +97,13 @@ def gen_history(rng, kind, n=None):
                     op["meta"]["uid_parts"] = p0["meta"]["uid_parts"]
             ops.append(op)
         else:
-            ops.append(F.gen_extra_op(rng, invalid))
+            op = F.gen_extra_op(rng, invalid)
+            valid_before = [o for o in ops if o["meta"].get("invalid") is None]
+            if invalid is None and valid_before and rng.random() < 0.2:
+                # exactly the same record again (a caller walking two trees that share a file): every successful add appends
+                op = json.loads(json.dumps(rng.choice(valid_before)))
+                op["meta"]["exact_repeat"] = True
+            ops.append(op)
     return {"kind": kind, "ops": ops}
 
 
